@@ -162,6 +162,35 @@ def dtype_rule(ctx, I, t0, arg_values, dotted, construct=None):
     return bool(inherited)
 
 
+def default_arg_writes(I, t0=0):
+    """writes (array stores, in-place operators, out= targets, dictionary stores/updates, list appends) into an object that is the DEFAULT
+    VALUE of a parameter: it was created once and is shared by every call, so what one call leaves in it the next call finds"""
+    hits = []
+    if not I.default_objects:
+        return hits
+    for e in I.trace[t0:]:
+        if e.kind in ("store", "inplace", "dict-store", "dict-update", "dict-pop", "list-append", "list-mutate"):
+            for d in e.data:
+                if isinstance(d, int) and d in I.default_objects:
+                    fn, pname, _ = I.default_objects[d]
+                    hits.append((fn, pname, e.kind, e.loc))
+    return hits
+
+
+def default_arg_rule(ctx, I, t0, dotted, construct=None):
+    hits = default_arg_writes(I, t0)
+    if hits:
+        rule = f"{ctx.prop}.default-args"
+        if rule not in ctx.rules_doc:
+            ctx.rule(rule, "no function on the interpreted path writes into the default value of one of its parameters (a mutable default is created "
+                           "once at import and shared by all calls: a workspace, table or dictionary kept there carries state from one call to the next)")
+        fn, pname, kind, loc_ = hits[0]
+        ctx.ob(rule, construct or dotted.split(".")[-1], False,
+               f"{len(hits)} write(s) into the default value of parameter `{pname}` of {fn} (first: {kind} at {loc_}): state shared by every call that omits the argument",
+               loc_ or defloc(ctx, dotted))
+    return bool(hits)
+
+
 class Abort(Exception):
     """Raised after a failing obligation has been recorded when the rest of the check cannot proceed."""
 
@@ -219,6 +248,7 @@ def call_public(ctx, I, dotted, *args, **kw):
                                      "arrays -- e.g. pole vectors after projecting them -- would otherwise see them rescaled)")
                 ctx.ob(rule_m, dotted.split(".")[-1], False, f"argument array(s) {changed} were modified in place", defloc(ctx, dotted))
         dtype_rule(ctx, I, t0_, list(args) + list(kw.values()), dotted)
+        default_arg_rule(ctx, I, t0_, dotted)
         if explore and (ctx.prop, dotted, keyof(saved[0])) not in _EXPLORED:
             _EXPLORED.add((ctx.prop, dotted, keyof(saved[0])))
             rule = f"{ctx.prop}.exit-paths"
